@@ -187,6 +187,60 @@ CHECKS = {
               "because n_offsets is by definition the length of v0_offsets."),
         technique="TLA+ spec (Validation) decision tables enumerated and checked with TLC; replay of every enumerated case; trace validation by total monitor",
     ),
+    "C01": dict(
+        category="model_checking",
+        text=("Gauss states the linear-Gaussian model in exact rationals on a lattice (one slot order K, v0, offsets, v1.. for design "
+              "matrix, prior means and variances; jitter-inflated variances; K-variance rule with cap); TLC checks its theorems on all 864 "
+              "structural points (epochs 1..3 x poly_trend 1..3 x offsets 0..2 x every survey labelling x default / capped / custom K "
+              "prior x means x jitter x e in {0,3/5,4/5}). Each point gets seeded lattice values and is realised through RVData / "
+              "JokerPrior / JokerSamples; the kernel's public B and b after marginal_ln_likelihood (a decoy row evaluated first) are "
+              "projected to physical units and exact rationals and compared entry by entry with the specification by TLC "
+              "(GaussTrace); the value is compared with ln N(y; b, B) of those certified matrices and with TheJoker's in-memory and "
+              "cache-file entry points; off the lattice only finiteness on random valid inputs is explored."),
+        design_ref="DESIGN.md section 3 C01, 2.5",
+        note=("On the lattice only: Keplerian phases 0 and pi, e in {0, 0.6, 0.8}, P in {2, 4} d; agreement 'to round-off' at arbitrary "
+              "real inputs is NOT decided. Trusted: TLC, numpy slogdet/solve for the density of a given Gaussian, twobody's Kepler solver. "
+              "Multi-survey lattice cases are time-disjoint in list order (C08's open finding). Open kernel findings are classified "
+              "exactly by named deviations (KF_CustomKSlot, KF_P0Unit)."),
+        technique="TLA+ spec (Gauss) in exact rational arithmetic, theorems model-checked with TLC; replay of TLC-enumerated structural points; kernel state validated entry by entry by total monitor",
+    ),
+    "C03": dict(
+        category="model_checking",
+        text=("Same specification; for every structural point the posterior-draw path is run on the real helper through "
+              "make_full_samples_inmem with a scripted generator that records (mean, cov, size) of multivariate_normal and returns "
+              "sentinel draws; Ainv and Ainv.a are compared with the specification's exact precision and right-hand side (same C_s, "
+              "same prior incl. the cap) by TLC; cov.Ainv = I numerically; one call per sample with size = n_linear_samples; every "
+              "sentinel in its slot and unit; nonlinear parameters copied bit-for-bit."),
+        design_ref="DESIGN.md section 3 C03",
+        note=("On the lattice only. Not decided: that numpy's multivariate_normal samples the distribution it is given (independence of "
+              "draws). Open findings KF_NoCapOnPosterior, KF_P0Unit, KF_CustomKSlot are classified exactly."),
+        technique="TLA+ spec (Gauss) exact rationals checked with TLC; replay of TLC-enumerated structural points with a scripted generator; total monitor",
+    ),
+    "C04": dict(
+        category="model_checking",
+        text=("Gauss.Curve uses the very columns of the kernel's design matrix; for every structural point without offsets the row "
+              "emitted by the posterior path (sentinel linear parameters) is turned into samples.get_orbit(0) and its radial velocity "
+              "at the data epochs (explicit t_ref before the first epoch, lattice M0 / omega, poly_trend 1..3, random unit assignment) "
+              "must equal the specification's curve exactly (TLC); ln_unmarginalized_likelihood must be the jitter-inflated Gaussian "
+              "sum of that curve; samples.t_ref the data's; and marginal = unmarginalised + linear prior - conditional posterior."),
+        design_ref="DESIGN.md section 3 C04",
+        note=("On the lattice only; twobody's KeplerOrbit is the independent orbit path. A failing identity is attributed to an open "
+              "kernel finding only when the kernel's marginal or posterior state in the same trace was classified as that deviation."),
+        technique="TLA+ spec (Gauss) exact rationals checked with TLC; replay of TLC-enumerated structural points; total monitor",
+    ),
+    "C07": dict(
+        category="model_checking",
+        text=("Gauss is stated in physical units only, so every unit assignment of a configuration must project to the same exact "
+              "matrices: each structural point is realised in 2 (thorough 3) random unit assignments - data km/s or m/s, every prior "
+              "scale km/s or m/s, slopes per day or per year, period prior in d / 8 d / d/8, P0 in d / yr / 8 d, sample columns d/yr, "
+              "rad/deg, km/s / m/s - and marginal state, value (incl. N ln ratio), posterior state, emitted columns and orbit are "
+              "validated by TLC against the single physical specification; rejection_sample twins with equal seeds must accept the "
+              "same rows, differ in ln-likelihood only by the Jacobian constant and return physically equal samples."),
+        design_ref="DESIGN.md section 3 C07",
+        note=("On the lattice only. Period-prior units are restricted to d, 8 d, d/8 so that the open finding KF_P0Unit is classified "
+              "exactly; yr / h period priors would be off the lattice while that finding is open."),
+        technique="TLA+ spec (Gauss) in physical units checked with TLC; replay of TLC-enumerated structural points under random unit assignments; total monitor",
+    ),
 }
 
 NOT_YET = "check not built yet (build in progress; see DESIGN.md section 7)"
